@@ -292,11 +292,35 @@ fn v4(rng: &mut impl RngCore) -> String {
 fn v6(rng: &mut impl RngCore) -> String {
     let mut b = [0u8; 16];
     rng.fill_bytes(&mut b);
-    if rng.next_u32() % 5 == 0 {
-        b[0] = 0;
-        b[1] = 0;
+    match rng.next_u32() % 12 {
+        0 | 1 => {
+            b[0] = 0;
+            b[1] = 0;
+        }
+        // IPv6 addresses with an IPv4 inside or with special meaning stay IPv6 entries of the list
+        2 | 3 => {
+            // IPv4-mapped ::ffff:a.b.c.d
+            b[..10].fill(0);
+            b[10] = 0xff;
+            b[11] = 0xff;
+        }
+        4 => b[..12].fill(0),  // IPv4-compatible ::a.b.c.d
+        5 => {
+            b.fill(0);
+            b[15] = (rng.next_u32() & 1) as u8; // :: and ::1
+        }
+        6 => {
+            // 64:ff9b::a.b.c.d (NAT64)
+            b[..12].copy_from_slice(&[0, 0x64, 0xff, 0x9b, 0, 0, 0, 0, 0, 0, 0, 0]);
+        }
+        7 => b.fill(0xff),
+        _ => {}
     }
-    let port = (rng.next_u32() & 0xffff) as u16;
+    let port = match rng.next_u32() % 8 {
+        0 => 0,
+        1 => 65535,
+        _ => (rng.next_u32() & 0xffff) as u16,
+    };
     SocketAddr::V6(SocketAddrV6::new(Ipv6Addr::from(b), port, 0, 0)).to_string()
 }
 
